@@ -21,7 +21,7 @@ LEVEL = "exploration"
 tiers = {
     "quick": {"runs": 1500, "chunk": 25, "wall_cap_s": 2400, "determinism_samples": 6,
               "max_minimise": 3, "minimise_budget_s": 40},
-    "thorough": {"runs": 25000, "chunk": 60, "wall_cap_s": 3300, "determinism_samples": 30,
+    "thorough": {"runs": 25000, "chunk": 60, "wall_cap_s": 7200, "determinism_samples": 30,
                  "max_minimise": 5, "minimise_budget_s": 120},
 }
 
